@@ -6,8 +6,11 @@
 (*   1. runs BibSplitter!Run on the tokens (with fe resolving the one freedom  *)
 (*      the specification leaves) and prints the blocks it assigns;            *)
 (*   2. evaluates the declarative clauses of C03 on the OBSERVED ranges        *)
-(*      (Tiling, Lines) - the same predicates T1 proves for the specification. *)
-EXTENDS BibSplitter, Json, IOUtils
+(*      (Tiling, Lines) - the same predicates T1 proves for the specification; *)
+(*   3. on request (c.g) runs the grammar recogniser BibGrammar!Recognise and   *)
+(*      reports whether the input is in the dialect and whether the grammar's   *)
+(*      blocks equal the scanner's (C02 on this input).                         *)
+EXTENDS BibGrammar, Json, IOUtils
 Trace == JsonDeserialize(IOEnv.TRACE_FILE)
 VARIABLES tid
 N == Len(Trace)
@@ -23,6 +26,8 @@ Next ==
               toks == Toks(c)
               out == Run(toks, FeMap(c))
           IN PrintT(ToJson([id |-> c.id, out |-> out,
+                            rec |-> IF c.g THEN LET r == Recognise(toks) IN [ok |-> r.ok, same |-> r.blocks = out]
+                                    ELSE [ok |-> FALSE, same |-> FALSE],
                             obs |-> IF c.judge THEN ObsOK(toks, c.obs) ELSE "",
                             spec |-> IF Tiling(toks, out) /\ Lines(toks, out) /\ FieldLines(toks, out)
                                         /\ FailedCarry(toks, out) /\ Shapes(toks, out) THEN "" ELSE "spec-invariant"]))
